@@ -168,7 +168,7 @@ def cases(rng, tier):
         for u in MINI:
             for i in range(0, len(MINI), 96):
                 yield {"u": u, "vs": MINI[i : i + 96], "sa": sa}
-    n = 2600 if tier == "quick" else 30000
+    n = 10000 if tier == "quick" else 40000
     for _ in range(n):
         s, h, p = rng.choice(SCHEMES), rng.choice(HOSTS), rng.choice(PORTS)
         path, extra = rng.choice(PATHS), rng.choice(["", "", ""] + EXTRAS)
